@@ -622,23 +622,12 @@ def simplify_boolean_expressions(source: str) -> str:
 
             continue
 
-        if isinstance(operator, ast.Eq):
-            yield node, ast.Constant(value=left == right, kind=None)
+        try:
+            value = constants.COMPARISON_OPERATORS[type(operator)](left, right)
+        except TypeError:  # e.g. None < 1: evaluating it raises, so there is nothing to fold
+            continue
 
-        elif isinstance(operator, ast.NotEq):
-            yield node, ast.Constant(value=left != right, kind=None)
-
-        elif isinstance(operator, ast.Gt):
-            yield node, ast.Constant(value=left > right, kind=None)
-
-        elif isinstance(operator, ast.Lt):
-            yield node, ast.Constant(value=left < right, kind=None)
-
-        elif isinstance(operator, ast.GtE):
-            yield node, ast.Constant(value=left >= right, kind=None)
-
-        elif isinstance(operator, ast.LtE):
-            yield node, ast.Constant(value=left <= right, kind=None)
+        yield node, ast.Constant(value=value, kind=None)
 
 
 @processing.fix
